@@ -151,13 +151,30 @@ def h_illumina(n_exons, n_short):
     return fn
 
 
+def h_documented_presets(g):
+    """the three presets whose content docs/cmd.md states: none (no correction), all (every correction), conservative_ont
+    (only incorrect splice junctions and skipped exons are fixed: no terminal-exon correction, so read ends never move)"""
+    name = ["none", "all", "conservative_ont"][g.choice("preset", 3)]
+    p = readfam.matching_params("default", name)
+    flags = {f: bool(getattr(p, f)) for f in FLAGS}
+    if name == "none":
+        g.check(not any(flags.values()), "preset none enables no correction", detail=flags)
+    elif name == "all":
+        g.check(all(flags.values()), "preset all enables every correction", detail=flags)
+    else:
+        g.check(flags["correct_skipped_exons"] and (flags["correct_fuzzy_junctions"] or flags["correct_intron_shifts"]) and
+                not flags["correct_terminal_exons"] and not flags["correct_fake_terminal_exons"] and not flags["correct_microintron_retention"],
+                "preset conservative_ont fixes only incorrect splice junctions and skipped exons", detail=flags)
+
+
 def instances(tier, seed):
     q = tier == "quick"
     F = ["src.exon_corrector:ExonCorrector.correct_assigned_read", "src.exon_corrector:ExonCorrector.correct_misalignments",
          "src.exon_corrector:ExonCorrector.process_events", "src.long_read_profiles:OverlappingFeaturesProfileConstructor.match_genomic_features",
          "src.assignment_io:BEDPrinter.add_read_info", "src.long_read_assigner:LongReadAssigner.assign_to_isoform",
          "src.junction_comparator:JunctionComparator.compare_junctions", "isoquant:set_splice_correction_options"]
-    out = []
+    out = [Instance("documented_presets", h_documented_presets, ["isoquant:set_splice_correction_options"],
+                    "the presets described in docs/cmd.md (none, all, conservative_ont)", weight=1)]
     presets = ["default"] if q else ["precise", "default", "loose"]
     loci = ["skip", "micro_exon"] if q else sorted(LOCI)
     strategies = ["none", "default_ont", "all"] if q else ["none", "default_pacbio", "conservative_ont", "default_ont", "all", "assembly"]
